@@ -158,7 +158,7 @@ def check_proofs(pid):
         res["log"] = "theorems without Print Assumptions: %s" % missing
         res["failed"] = missing
         return res
-    rc, out = coq_make([os.path.relpath(os.path.join(THEORIES, pid, "Property.vo"), COQDIR)])
+    rc, out = coq_make([os.path.relpath(os.path.join(THEORIES, pid, f), COQDIR) for f in ("Property.vo", "Corr.vo")])
     if rc != 0:
         res["log"] = out[-4000:]
         m = re.findall(r'File "([^"]+)", line (\d+)', out)
